@@ -25,7 +25,7 @@ CLAIMED = {
                   '126464, 126996, 126998); commands to 60928/126998 take effect and are read back through the ISO request path; heartbeat request limits.  Model tied to ~1000 lines of C++ by correspondence on node histories.',
              note=TB + 'Three open known findings (Command acknowledged for PGNs it cannot execute; refused command applied; malformed description accepted).  UCS-2 selection strings and cut pairs: correspondence only.',
              design='6 C09', technique='Coq proof over executable model + extracted-model/implementation correspondence'),
- 'C07': dict(text='node_safe: for every group-function reaction satisfying an explicit contract (proved for the no-op instance and for the library model gf_lib), every cold node and EVERY operation list (arbitrary frames, DLC 0..8, '
+ 'C07': dict(ready=False, text='node_safe: for every group-function reaction satisfying an explicit contract (proved for the no-op instance and for the library model gf_lib), every cold node and EVERY operation list (arbitrary frames, DLC 0..8, '
                   'polls, ticks, sends): the model never indexes Devices[]/N2kCANMsgBuf[] out of range (sticky r_oob flag), never delivers more than 223 bytes, keeps its slot and queue invariants; one poll consumes at most 20 '
                   'frames; fuelled loops are fuel-independent.  The device-list half is C18_heap_safe.  Tied to the C++ by protocol-grammar fuzz under ASan/UBSan with the library arrays relocated between inaccessible pages.',
              note=TB + 'Partial by nature: the theorem is about the abstract memory of the model; real memory safety of the C++ is evidenced by the sanitizer correspondence on the sampled histories, not proved.',
@@ -83,7 +83,7 @@ CLAIMED = {
                   'validated bit-for-bit against the hardware on every run.',
              note=TB + 'Partial: IEEE rounding of v/precision, val+-0.5 and code*precision (Model/SoftFloat.v) is validated by correspondence only; the half-step bound is proved in exact arithmetic.',
              design='6 C06', technique='Coq proof over executable model + bit-exact extracted-model/implementation correspondence'),
- 'C02': dict(text='rx_no_corruption: for every group-function reaction satisfying a frame contract, every clean node and EVERY operation list (any interleaving, any losses, any number of senders and slots, any clock), each '
+ 'C02': dict(ready=False, text='rx_no_corruption: for every group-function reaction satisfying a frame contract, every clean node and EVERY operation list (any interleaving, any losses, any number of senders and slots, any clock), each '
                   'non-TP delivery is justified by an increasing run of arrived frames (one first frame, continuation frames with the same PGN/source/destination and consecutive sequence bytes, announced length reached exactly at '
                   'the last frame, payload/priority/addresses taken from them) and no frame justifies two deliveries; runs_are_sent ties such runs to ONE sent message unless 8 messages of the PGN were started in between; '
                   'over-long announcements never delivered; single frames delivered with DLC; supersede and out-of-sequence discard on one frame; completeness in compositional form (first/continuation/other-traffic/whole poll).  '
@@ -91,13 +91,13 @@ CLAIMED = {
              note=TB + 'Open known finding complete-stale: the full completeness statement (no more keys than slots => every complete in-order run delivered) is machine-checked FALSE (C02_rx_complete_false, witness replayed on the C++); '
                   'the proved completeness needs a place at the first frame and the 100 ms slot-age hypothesis.  No ordering statement for deliveries; ISO-TP deliveries are C10.',
              design='6 C02', technique='Coq invariant proof over executable model + extracted-model/implementation correspondence'),
- 'C12': dict(text='Theorems about the heartbeat part of the node model: the next time is always the least grid point offset+k*period after now (late polling delays, never shifts); for every poll pattern a heartbeat is sent at '
+ 'C12': dict(ready=False, text='Theorems about the heartbeat part of the node model: the next time is always the least grid point offset+k*period after now (late polling delays, never shifts); for every poll pattern a heartbeat is sent at '
                   'the first poll at or after each grid point; the interval field is the configured interval in 10 ms units for the whole settable range 1000..655320 ms and the sequence counter runs 0..252 and wraps, for '
                   'every history; clipping of application values; re-enabling and Open() resynchronise the scheduler; nodes that are not active bus devices (modes, unopened, claim pending) send none.',
              note=TB + 'Two defects found by the proofs were repaired in /repo (9a9419c re-enable, e3d90bc resync after SetSyncOffset).  The group-function path to the interval is C09.  Driver acceptance is a hypothesis of hb_schedule '
                   '(a refused heartbeat is not retried: it is skipped, as in the code).',
              design='6 C12', technique='Coq proof over executable model + extracted-model/implementation correspondence'),
- 'C13': dict(text='node_shift_run: for every group-function reaction that commutes with a clock shift, every cold node and every operation list, the run with the clock origin moved by any d (both scheduler builds; 32-bit '
+ 'C13': dict(ready=False, text='node_shift_run: for every group-function reaction that commutes with a clock shift, every cold node and every operation list, the run with the clock origin moved by any d (both scheduler builds; 32-bit '
                   'wrap and the 64-bit roll counter included, polls at most 2^32-1 ms apart) yields the same events, and the final states are related by the shift; primitives (N2kIsTimeBefore, N2kHasElapsed, tN2kScheduler, '
                   'tN2kSyncScheduler, slot ageing, N2kMillis64) are shift-invariant and timers armed before the wrap fire on time.  Metamorphic correspondence: every generated history is run at several origins in the C++ '
                   'and in the model and the relative-time traces compared.',
